@@ -65,6 +65,12 @@ def _val(rng, dtype, extreme=False):
 
 
 def gen_lengths(rng, P):
+    if P.get("giant"):
+        # one array beyond 2**16 cells in a few rows (size thresholds of fast paths)
+        n = rng.randint(2, 4)
+        total = rng.randint(66000, 70000)
+        cuts = sorted(rng.sample(range(1, total), n - 1))
+        return [b - a for a, b in zip([0] + cuts, cuts + [total])], "none"
     n = rng.randint(1, 8)
     if P["big_rows"]:
         n = rng.randint(15, 40)
@@ -174,6 +180,9 @@ def gen_rowsel(rng, n, P, unique=False):
         else:
             k = rng.randint(0 if wild else 1, n + 2)
             rows = [rng.randint(-n, n - 1) for _ in range(k)]
+        if rows and not unique and P["oob_bias"] and rng.random() < P["oob_bias"] / 2:
+            # one entry that does not exist (the whole selection must then be refused)
+            rows[rng.randrange(len(rows))] = rng.choice([n, n + 2, -n - 1, -n - 3])
         if kind == "arr" and rows and rng.random() < 0.4:
             fits = [d for d in ("int8", "int16", "int32", "uint8", "uint16", "uint32", "uint64", "intp")
                     if all(int(np.iinfo(d).min) <= r <= int(np.iinfo(d).max) for r in rows)]
@@ -265,6 +274,9 @@ class Generator:
         if lengths is None:
             lengths, pat = gen_lengths(rng, self.P)
             self.meta_pattern = pat
+            if self.P.get("giant"):
+                self.P["giant"] = False          # only the first array is giant
+                dtype = rng.choice(["int8", "uint8", "int16"])
         dtype = dtype or rng.choice(self.P["dtypes"])
         extreme = rng.random() < 0.1
         rows = [[_val(rng, dtype, extreme) for _ in range(l)] for l in lengths]
@@ -421,6 +433,10 @@ class Generator:
                 rs, rcls = gen_rowsel(rng, n, self.P)
                 m = min(lens, default=0)
                 j = rng.randint(-max(m, 1), max(m, 1))
+            if self.P["oob_bias"] and rng.random() < 0.04:
+                j = rng.choice([HUGE, -HUGE, 2 ** 31, 2 ** 32 + 1])      # a column far beyond every row
+                if rng.random() < 0.5:
+                    rs, rcls = rng.choice([["sl", 1, 1, None], ["list", []], ["mask", [0] * n]]), "none"
             ix = ["tup", rs, ["int", j]]
             cls = "rows_j:" + rcls
         else:
@@ -875,8 +891,12 @@ class Generator:
         return "|".join(self.sig) + "#" + "".join(dts) + "#" + self.meta_pattern
 
 
-def generate(rng, hazard_free=True):
+def generate(rng, hazard_free=True, giant=False):
     g = Generator(rng, hazard_free=hazard_free)
+    if giant:
+        g.P.update({"giant": True, "n_steps": min(g.P["n_steps"], 6), "wild_rate": 0.0, "max_depth": 2,
+                    "big_rows": False, "big_len": False, "huge_shape": False})
+        g.max_vars = 6
     prog = g.generate()
     meta = {}
     for v in g.vars(usable=False):
